@@ -176,7 +176,7 @@ def _correspond(ck, rng):
         hist_meta.append({"steps": steps, "sel": sel, "fault": fault})
     # ---- tie H (2): node-level mapping cases
     node_cases = [c for c in N.gen_cases(rng, False)
-                  if c["node"]["kind"] in ("topk", "split", "inline", "inline0") or c["node"].get("op") in ("topk", "split", "unique")]
+                  if c["node"]["kind"] in ("topk", "split", "inline", "inline0", "inline_noinput") or c["node"].get("op") in ("topk", "split", "unique")]
     def safe(fn, c):
         try:
             return fn(c)
